@@ -482,6 +482,11 @@ func vfoMonitor(scn *vfoScn, res *vfoResult) []vfoViol {
 				} else if cpPos >= 0 && cpPos < failPos {
 					mech = "offset-applied-before-failed-answer"
 				}
+				if scn.Txn && !scn.Pipeline {
+					// one node, one pipeline (the cluster client does not send MULTI/EXEC): the position
+					// travelled behind the failing command in the same write
+					mech = "offset-in-same-pipeline-as-failed-command"
+				}
 				if scn.Pipeline && !(scn.StallOn && !scn.CpBatch) {
 					// pipelined mode dispatches positions (checkpoint ticker) while earlier data batches
 					// are dispatched but not yet acknowledged; whether such a write reaches its node before
@@ -527,6 +532,10 @@ func vfoTagsOnNode(node int, n int, salt string) []string {
 func vfoGen(r *vfutil.Rand, name string, force string) *vfoScn {
 	scn := &vfoScn{Name: name, BC: r.Range(1, 5)}
 	switch force {
+	case "txn-block-resume":
+		// transactional, blocking, resumable: the batch carries the position; the cluster client drops
+		// MULTI/EXEC, so data and position are one plain pipeline on the checkpoint key's node
+		scn.Txn, scn.Resume = true, true
 	case "txn-block":
 		scn.Txn = true
 	case "txn-pipe":
@@ -574,6 +583,8 @@ func vfoGen(r *vfutil.Rand, name string, force string) *vfoScn {
 	} else if scn.CpRetry {
 		tags = vfoTagsOnNode(vfdoubles.ClusterSlot("vfcp")*3/16384, 2, name)
 		scn.BC = 50
+	} else if scn.Txn && scn.Resume {
+		tags = vfoTagsOnNode(cpNode, r.Range(2, 3), name) // a transactional batch is one node: the checkpoint key's
 	} else if scn.Txn {
 		tags = vfoTagsOnNode(r.Intn(3), r.Range(2, 3), name)
 	} else {
@@ -648,6 +659,12 @@ func vfoGen(r *vfutil.Rand, name string, force string) *vfoScn {
 		at += r.Intn(n/2 + 1)
 		if force != "" {
 			at = r.Intn(n / 2)
+		}
+		if force == "txn-block-resume" {
+			// the slot of the first command has moved before the run starts: its first batch carries a
+			// command answered MOVED (not followed) and, behind it in the same pipeline, the position
+			at = 0
+			scn.Cmds[0].Key = tagKeys[t][0]
 		}
 		if force == "nofollow-pipe" {
 			at = 0
@@ -818,7 +835,7 @@ func TestVerifC19Out(t *testing.T) {
 	r := vfutil.NewRand(vfutil.Seed() + 1919)
 	idx := 0
 	// every mode with a redirect / cross-slot batch at least a few times
-	forced := []string{"txn-block", "txn-block", "txn-block", "txn-pipe", "txn-pipe", "txn-cross", "txn-cross",
+	forced := []string{"txn-block-resume", "txn-block", "txn-block", "txn-block", "txn-pipe", "txn-pipe", "txn-cross", "txn-cross",
 		"nofollow-block", "nofollow-pipe", "cpbatch-block", "cpbatch-block-1", "cpbatch-block-2", "cpbatch-pipe", "close-outside", "fault", "fault", "fault", "fault", "fault", "fault"}
 	if only := os.Getenv("VERIF_C19_ONLY"); only != "" {
 		forced = []string{only}
